@@ -190,6 +190,17 @@ def interface_distance_ref(cls, radius, amps, theta, phi):
     return radius * dist
 
 
+def _zonal_amps(rng):
+    """amplitudes of an axisymmetric droplet: 1-4 low modes, or up to 9 modes with the weight in one HIGH zonal mode (whose
+    harmonic exceeds 1 at the poles: sqrt((2l+1)/4 pi) > 1 from l = 6 on)"""
+    if rng.random() < 0.5:
+        return rng.uniform(-0.3, 0.3, int(rng.integers(1, 5)))
+    n = int(rng.integers(6, 10))
+    amps = rng.uniform(-0.02, 0.02, n)
+    amps[n - 1] = rng.choice([-1, 1]) * rng.uniform(0.12, 0.2)
+    return amps
+
+
 def cell_vectors(grid, pos):
     """Min-image difference vectors (Cartesian) from pos to every cell centre, computed independently."""
     from pde import CartesianGrid, CylindricalSymGrid
@@ -246,14 +257,14 @@ def _oracle_cases(seed, count):
             else:
                 grid = CartesianGrid([[-3, 3], [-3, 3], [-2, 4]], [8, 8, 8], periodic=[False, False, bool(rng.integers(0, 2))])
                 pos = np.array([0.0, 0.0, rng.uniform(-2, 4)])
-                amps = rng.uniform(-0.3, 0.3, int(rng.integers(1, 5)))
+                amps = _zonal_amps(rng)
                 obj = D.PerturbedDroplet3DAxisSym(pos, float(rng.uniform(1.0, 2.5)), w, amps)
         elif kind == "pa_cyl":
             grid = CylindricalSymGrid(4, [0, 8], [8, 16], periodic_z=False)
             pos = np.array([0.0, 0.0, rng.uniform(1, 7)])
             if on_centre:
                 pos[2] = grid.axes_coords[1][int(rng.integers(0, 16))]
-            amps = rng.uniform(-0.3, 0.3, int(rng.integers(1, 5)))
+            amps = _zonal_amps(rng)
             obj = D.PerturbedDroplet3DAxisSym(pos, float(rng.uniform(1.0, 2.5)), w, amps)
         elif kind == "polar":
             grid = PolarSymGrid(6, 24)
